@@ -6,6 +6,20 @@ NOTE = ("bounded scope only (declared lattices/catalogues/depths); exact Fractio
 TECH = "exhaustive small-scope enumeration of the real implementation against an exact reference model (explicit-state explorer written for this task)"
 
 CHECKS = {
+    "C03": ("Every catalogue operation (about 130 entries: join/meet kinds, incidence, dist, angle, cross ratios, harmonic sets, constructions, "
+            "predicates, transformations on every object kind, quadric contains / intersect / tangent / polar / dual / components, conic x conic, polytope "
+            "contains / intersect / area / centroid / distances) x every argument position (every vertex of a polytope) x every scale factor of "
+            "{-3,-2,-1,-1/2,1/2,2,3} (+ i, -i, 1+i for the algebraic operations; thorough adds 1/4, 5, 1e3, 1e-3) x up to 24 exact base configurations: "
+            "the rescaled call must give identical predicates, equal numbers (angles mod pi), projectively equal objects, equal multisets; == is "
+            "checked on all pairs of lattice points / lines / planes (true exactly for exact multiples, reflexive, symmetric), 3D lines, conics, "
+            "transformations and collections; polygon membership and area under all sign patterns of the vertex weights.",
+            NOTE, "exhaustive metamorphic enumeration (operation x argument position x scale factor x configuration) on the real implementation", "DESIGN.md section 5, C03"),
+    "C04": ("Every catalogue operation that accepts collections x collection shapes (1,), (2,), (3,), (2,2), (1,3) x every single/collection "
+            "assignment of the arguments x every window of consecutive base configurations: each position of the collection result must equal the "
+            "library's own single-object result (classes, duality flags, values; exceptions must correspond); integer indexing c[i], c[i,j], c[-i], "
+            "c[i][j] and iteration of every collection class (incl. dual quadric collections) must yield the element class with equal coordinates, "
+            "index types, is_dual, pdim and cached lines / planes.",
+            NOTE, "exhaustive differential enumeration (operation x shape x single/collection mix x position) of collection calls against single-object calls of the real implementation", "DESIGN.md section 5, C04"),
     "C18": ("segment x segment and segment x line over all ordered endpoint pairs of the 3x3 lattice (+ half points): crossing, T-touch, endpoint touch, "
             "parallel, collinear (only 'no spurious point' there); segment x plane and 3D segment x segment (skew operands may raise the documented "
             "NotCoplanar); 2D polygon catalogue x lines and segments through lattice pairs of the bounding box; 3D polygons in 7 embeddings x lines / "
